@@ -56,6 +56,7 @@ var c02Site = map[string]string{
 	"inc2":    "{% include 'plain' %}+{% include 'a/p' %}+{% include 'b/p' with {'q': v} only %}",
 	"hot":     "H0:{{ v }}{{ tick() }}",
 	"opt":     "[{% include 'late' ignore missing %}]{{ tick() }}",
+	"fsdoc":   "H0:{{ tick() }}",
 	"long":    "{% set t = v ~ '!' %}{% if l|length > 2 %}{{ l|join(',') }}{% else %}no{% endif %}{{ tick() }}{{ t|upper }}{% for k, x in m %}{{ k }}={{ x }};{% endfor %}" + strings.Repeat("<p>text {{ v }}</p>", 20),
 }
 
@@ -125,6 +126,10 @@ func (propC02) Gen(seed uint64, ex map[string]bool) interface{} {
 	nt := r.Range(2, 4)
 	hot := r.P(35) && !ex["conflicting-registration"]
 	late := r.P(40)
+	fsdoc := sc.Cache == "autoreload" && sc.Loader == "fs" && r.P(60)
+	if fsdoc {
+		hot, late = true, false
+	}
 	for t := 0; t < nt; t++ {
 		var ops []c02Op
 		n := r.Range(1, 4)
@@ -134,6 +139,11 @@ func (propC02) Gen(seed uint64, ex map[string]bool) interface{} {
 				// conflicting versions of one name: checked for linearizability, not against a fixed expectation
 				ver := t*10 + i + 1
 				switch {
+				case fsdoc && r.P(40):
+					// "another process" rewrites the file (newer mtime) while other tasks render it
+					ops = append(ops, c02Op{K: "writefs", Name: "fsdoc", Src: fmt.Sprintf("H%d:{{ tick() }}", ver), V: v})
+				case fsdoc:
+					ops = append(ops, c02Op{K: "renderhot", Name: "fsdoc", V: v})
 				case late && r.P(45):
 					// a name that no loader has, included with `ignore missing`, gets registered concurrently
 					ops = append(ops, c02Op{K: "reghot", Name: "late", Src: fmt.Sprintf("H%d:", ver), V: v})
@@ -271,6 +281,14 @@ func c02Do(e *twig.Engine, shared *twig.Template, op c02Op) Obs {
 		})
 	case "shared":
 		return observe(nil, func() (string, error) { return shared.Render(c02Ctx(op.V)) })
+	case "writefs":
+		return observe(nil, func() (string, error) {
+			w := simrt.W
+			w.AdvanceClock(2e9) // strictly newer modification time (second granularity)
+			w.FSWrite("root/"+op.Name+".twig", []byte(op.Src), w.NowNS())
+			simrt.Yield()
+			return "", nil
+		})
 	case "reghot":
 		return observe(nil, func() (string, error) { return "", e.RegisterString(op.Name, op.Src) })
 	case "renderhot":
@@ -349,7 +367,7 @@ func (propC02) Run(scI interface{}) *Outcome {
 				return o
 			}
 			g, x := got[t][i], expect[t][i]
-			if op.K == "reghot" || op.K == "renderhot" {
+			if op.K == "reghot" || op.K == "renderhot" || op.K == "writefs" {
 				continue // order-dependent: judged by the linearizability check below
 			}
 			if g.Key() != x.Key() {
@@ -373,10 +391,10 @@ func (propC02) Run(scI interface{}) *Outcome {
 	var hist []porcupine.Operation
 	for t := 0; t < nt; t++ {
 		for i, op := range sc.Tasks[t] {
-			if op.K != "reghot" && op.K != "renderhot" {
+			if op.K != "reghot" && op.K != "renderhot" && op.K != "writefs" {
 				continue
 			}
-			in := hotIn{Reg: op.K == "reghot"}
+			in := hotIn{Reg: op.K == "reghot" || op.K == "writefs"}
 			out := -1
 			if in.Reg {
 				in.Ver = hotVer(op.Src)
@@ -390,6 +408,11 @@ func (propC02) Run(scI interface{}) *Outcome {
 				case strings.HasPrefix(g, "[H") && strings.HasSuffix(g, ":]"):
 					out = hotVer(g[1:])
 				default:
+					out = -2
+				}
+			} else if got[t][i].Class == "ok" && op.Name == "fsdoc" {
+				out = hotVer(got[t][i].Out)
+				if got[t][i].Out != fmt.Sprintf("H%d:", out) {
 					out = -2
 				}
 			} else if got[t][i].Class == "ok" {
